@@ -62,7 +62,7 @@ func (d *legacyDom) Close() {
 	}
 }
 
-var legacyVals = []string{`1`, `2`, `"a"`, `"b"`, `true`, `null`}
+var legacyVals = []string{`1`, `2`, `"a"`, `"b"`, `true`, `null`, `"1"`, `"true"`}
 var legacyKeys = []string{"a", "b", "c"}
 
 func (d *legacyDom) Gen(r *gen.R, tier string, emit func(string)) {
@@ -487,16 +487,42 @@ func (d *legacyDom) Exec(a []string) string {
 			} else if c, ok := raw.Result["collection"]; !ok || string(c) == "null" {
 				return "coll-null"
 			}
+			out := ""
 			if d.model {
 				if rr.Result.Model == nil {
-					return "model:"
+					out = "model:"
+				} else {
+					out = renderAny(rr.Result.Model)
 				}
-				return renderAny(rr.Result.Model)
+			} else if rr.Result.Collection == nil {
+				out = "coll:"
+			} else {
+				out = renderAny(rr.Result.Collection)
 			}
-			if rr.Result.Collection == nil {
-				return "coll:"
+			// Value() must give the same (through a With callback; typed values are rendered via JSON)
+			val := "value-not-called"
+			done := make(chan struct{})
+			if d.run.S.With("svc.r", func(r res.Resource) {
+				defer close(done)
+				defer func() {
+					if recover() != nil {
+						val = "value-panic"
+					}
+				}()
+				v, err := r.Value()
+				if err != nil {
+					val = "value-err"
+					return
+				}
+				b, _ := json.Marshal(v)
+				val = renderAny(json.RawMessage(b))
+			}) == nil {
+				<-done
 			}
-			return renderAny(rr.Result.Collection)
+			if val != out {
+				return out + " BUT-Value()=" + val
+			}
+			return out
 		}
 		return "bad-op"
 	})
